@@ -12,7 +12,7 @@ Ne(name, have, want, cond) == IF cond /\ have # want THEN {<<name, have, want>>}
 Diff(e, o) ==
     Ne("waitrequest", e.o.wait, o.wait, TRUE) \cup Ne("readdatavalid", e.o.rdv, o.rdv, TRUE)
     \cup Ne("readdata", e.o.q, o.q, o.rdv = 1)
-    \cup Ne("cmd.valid", e.o.cv, o.cv, TRUE) \cup Ne("cmd.we/addr", <<e.o.cwe, e.o.ca>>, <<o.cwe, o.ca>>, o.cv = 1)
+    \cup Ne("cmd.valid", e.o.cv, o.cv, TRUE) \cup Ne("cmd.we/addr/last", <<e.o.cwe, e.o.ca, e.o.clast>>, <<o.cwe, o.ca, o.clast>>, o.cv = 1)
     \cup Ne("wdata.valid", e.o.wv, o.wv, TRUE) \cup Ne("wdata.data/we", <<e.o.wd, e.o.ww>>, <<o.wd, o.ww>>, o.wv = 1)
     \cup Ne("rdata.ready", e.o.rr, o.rr, TRUE)
 TNext == /\ l <= NLines
